@@ -363,14 +363,14 @@ func runC11(c *core.Ctx, i int) {
 	h := c11hook
 	h.k = uint64(1 + i%7)
 	h.budget = int64(c.Pick(100, 600))
-	h.forced.Store(0)
-	h.enabled.Store(true)
-	if c11prev != nil && i%2 == 1 {
+	if c11prev != nil && i%2 == 1 && len(c11prev.file) < 1<<20 {
 		// the documented way of reading first: the previous case's file (another type), every record's bank closed in
 		// the callback. The banks this read retains are then drawn from a pool of banks that served other types.
 		lib.ReadEach(c11prev.file, c11prev.t.RT(), false, func(int, reflect.Value) error { return nil })
 		c.Count("reads-after-recycled-banks", 1)
 	}
+	h.forced.Store(0)
+	h.enabled.Store(true)
 	got, err := lib.ReadAll(f.file, rt, i%2 == 0)
 	h.enabled.Store(false)
 	c11prev = f
